@@ -143,16 +143,36 @@ class PyDriver:
             if spoil is not None:
                 spoil(r1)
             elif isinstance(r1, list):
+                for x in r1[:4] + r1[-2:]:
+                    # elements that are themselves mutable (points given as lists, records) are edited in place as well
+                    if isinstance(x, list) and x:
+                        x[0] = 999.25; x.append(-1)
+                    elif isinstance(x, dict):
+                        x['spoiled'] = True
                 r1.append(r1[0] if r1 else 0)
                 r1.reverse()
         except Exception:  # noqa  (immutable result: nothing to spoil)
             pass
+        r2 = None
         try:
-            k2 = canon(fn())
+            r2 = fn()
+            k2 = canon(r2)
         except Exception as e:  # noqa
             k2 = 'raises ' + type(e).__name__
         if k2 != k1:
             raise StateDependent(f'`{kind}` answers differently after the list it returned was modified by the caller')
+        # a result the caller still holds from an earlier op of this kind must not have changed because a later result was edited
+        kept = self.__dict__.setdefault('_kept', {})
+        if kind in kept:
+            old, snap, cn = kept.pop(kind)
+            try:
+                now = cn(old)
+            except Exception:  # noqa
+                now = snap
+            if now != snap:
+                raise StateDependent(f'a result of `{kind}` that the caller still holds changed when a later result of `{kind}` was edited in place')
+        if r2 is not None:
+            kept[kind] = (r2, k2, canon)
         return k1
 
     def reused_arg(self, kind, point, fn, canon):
